@@ -24,6 +24,31 @@ SCOPES = {
 }
 
 
+def _d(metric, a, b):
+    df = [abs(x - y) for x, y in zip(a, b)]
+    return sum(df) if metric == "l1" else max(df) if metric == "linf" else sum(v * v for v in df)
+
+
+def offdata_variants(case):
+    """input generation only: the warm start of an enumerated case moved off the data -- every initial center is
+    shifted to a lattice point that is not a frame, keeping only variants in which each initial center strictly
+    owns at least one frame (so that the located center frames are well defined whatever the tie-breaks)"""
+    if not case["init"]:
+        return []
+    pts, m = [list(p) for p in case["pts"]], case["metric"]
+    out = []
+    for shift in (1, -1, 3):
+        q = [[pts[i - 1][0] + shift] + pts[i - 1][1:] for i in case["init"]]
+        if any(x in pts for x in q) or len({tuple(x) for x in q}) < len(q):
+            continue
+        owns = [any(all(_d(m, p, q[c]) < _d(m, p, q[o]) for o in range(len(q)) if o != c) for p in pts) for c in range(len(q))]
+        if not all(owns):
+            continue
+        out.append(dict(pts=case["pts"], metric=m, algo="kcenters", k=case["k"], cut=case["cut"], ti=case["ti"],
+                        init=[], initXY=q, form="function", dtype="float64"))
+    return out
+
+
 def run(ctx):
     ctx.rule = ("TLC enumerates every ordered set of distinct lattice points x metric x n_clusters x cutoff x "
                 "shortcut x warm start in scope; one trace = one run of the real k-centers on one of them; "
@@ -48,6 +73,7 @@ def run(ctx):
             forms = ("function", "estimator") if j % 5 == 0 else ("function",)
             dts = ("float64", "float32") if j % 7 == 0 else ("float64",)
             runs += ce.kc_runs(c, forms=forms, dtypes=dts)
+            runs += offdata_variants(c)
     if ctx.tier == "thorough":
         rng = np.random.RandomState(ctx.seed + 2)
         runs += ce.random_runs(rng, 20000, ["kcenters"])
